@@ -149,6 +149,13 @@ func InflightDone() {
 
 var watchdogOn bool
 
+var persistInflight bool
+
+// PersistInflight makes Run write the case it is about to evaluate to
+// $VERIF_OUT.inflight, so that the driver can name the case when the process
+// dies before it can report (the race detector with halt_on_error).
+func PersistInflight() { persistInflight = true }
+
 // Watchdog enables the per-case non-termination check; call it before Main.
 func Watchdog(limit time.Duration) {
 	watchdogOn = true
@@ -316,6 +323,14 @@ func Run(t tbLike, checkName string, c interface{}, check func() Outcome) {
 	}
 	if watchdogOn {
 		begin(checkName, raw)
+	}
+	if persistInflight {
+		if p := os.Getenv("VERIF_OUT"); p != "" {
+			f := failure{Check: checkName, Property: st.id, Sig: "in-flight", Violation: "in flight when the process stopped", Case: raw}
+			if data, err := json.Marshal(f); err == nil {
+				_ = os.WriteFile(p+".inflight", data, 0o644)
+			}
+		}
 	}
 	out := Protect(check)
 	if watchdogOn {
